@@ -11,4 +11,4 @@ for f in $(grep '^+++ b/' "$p" | sed 's|^+++ b/||'); do
 done
 (cd $d && patch -s -p1 < "$p")
 for f in $(grep '^+++ b/' "$p" | sed 's|^+++ b/||'); do ov="$ov --overlay /repo/$f=$d/$f"; done
-/verif/bin/govc "$@" $ov
+${GOVC:-/verif/bin/govc} "$@" $ov
